@@ -157,15 +157,18 @@ EXTRA_TEXT = {
  "C07": " Added: the JSON body helper is exactly json.NewEncoder(w).Encode(v); every MarshalJSON has a value receiver; a component that is a bare $ref to another delegates both JSON methods to it.",
  "C13": " Added: fmt.Sprintf with a single %q is accepted as the literal producer; a field-based step in the bytes flow; every parameter of package goag's functions on the generation path is used (no flag silently replaced).",
  "C14": " Added: value-dependent panics of make/Grow/Repeat/MustCompile with a computed argument; func- or interface-typed fields of package structs are nil-tested before they are called unless every in-package construction sets them; bounds inside splitPath and the path-segment extraction are proven by a case-partitioned evaluation (strcut) whatever their spelling; a witness package is flagged on every run.",
- "C15": " Added: schema-ref-phase (Schema methods that follow Ref into a possibly unfilled component are guarded by Ref == nil in the construction phase); template-nil-chain (typed templates: a field chain through an optional pointer stands under an if/with/and guard of that prefix or a call-site guarantee); the exit-code rule follows Generate* errors interprocedurally to a fatal exit.",
+ "C15": " Added: schema-ref-phase (Schema methods that follow Ref into a possibly unfilled component are guarded by Ref == nil in the construction phase); template-nil-chain (typed templates: a field chain through an optional pointer stands under an if/with/and guard of that prefix or a call-site guarantee); the exit-code rule follows Generate* errors interprocedurally to a fatal exit; error-reaches-exit is the failure-flow reading of the driver interpreter (a failure overwritten by a later success in a helper closure is reported).",
  "C12": " Added: comparator sorts count only when the comparator is a plain element comparison; hash/maphash and package-level initialisers are scanned; FuncMap functions are resolved from the literal; the per-spec loop of --dir carries no variable between iterations; file-system reads are classified by role.",
- "C19": " Added: the re-run clause is decided here as well (C12's order/environment/state enumeration under C19 rule names); unconditional remove wrappers and constant name tables are summarised.",
+ "C19": " Added: the re-run clause is decided here as well (C12's order/environment/state enumeration under C19 rule names). Round 3: events, polarity and remove errors are read off a path-sensitive abstract interpretation of the driver (fsinterp: helpers and closures inlined, constant lists unrolled, os.Remove with nil / not-exist / real-failure outcomes), so the verdict does not depend on how the code is factored.",
  "C11": " Added: the OR-combinator is interpreted path by path (authcomb), authenticators by value flow; known findings carry the authenticator set observed today as `match`.",
  "C16": " Added: own-template (the leaf reached for an instance of a declared template returns exactly that template); the middleware loop is recognised by its index progression (revloop) in any spelling.",
  "C03": " The splitter's contract is decided by a case-partitioned evaluation of its body (strcut), not by its spelling.",
  "C05": " The segment extraction is decided by the same case-partitioned evaluation (strcut).",
  "C09": " Added: the client formats date-time parameters with the declared layout.",
- "C01": " Added: fmt-or-error follows formatter wrappers and parameters to their call sites.",
+ "C01": " Added: fmt-or-error follows formatter wrappers and parameters to their call sites; err-propagation is the failure-flow reading of the driver interpreter (every error-returning call forks, a failed path must end in an error exit), including closures that assign an outer err.",
+ "C08": " Added in round 3: fresh-element (every decoder loop decodes into a variable declared in the loop body or reset before the decode, because json.Unmarshal and the generated UnmarshalJSON merge into their target); date-time properties are parsed and re-encoded with the layout the schema demands; alias components are followed to their target's decoder. Witness package flagged on every run.",
+ "C20": " Added in round 3: shared-data-read-only (no store, map update, append, copy or in-place library mutation such as slices.Reverse/sort through a reference rooted in the shared API/Client receiver or in a value receiver's data, followed through parameters of in-package callees and closure captures).",
+ "C18": " Added: the JSON write signature records for inline array properties as well as for array components whether a nil slice is written as [].",
 }
 
 def main():
